@@ -271,6 +271,9 @@ theorem clientAfter_inv {v : Variant} {s : Sess} {c : Client} {scr2 scr3 : Scree
   refine ⟨by rw [hw3, hh3]; exact picUpdate_size _ _ _ _ _ _, ?_⟩
   intro x y hx hy
   rw [hw3] at hx ⊢; rw [hh3] at hy
+  rw [hfmt3]
+  have htf : (clientAfter s c scr2.fb).tfmt = c.tfmt := rfl
+  rw [htf]
   -- the expectation after the update, in terms of the screen before it
   have hexp : expectedPx v scr3 (clientAfter s c scr2.fb) x y =
       expectedPx v s.scr (c.at (updCurX s c) (updCurY s c)) x y :=
@@ -283,11 +286,11 @@ theorem clientAfter_inv {v : Variant} {s : Sess} {c : Client} {scr2 scr3 : Scree
     rw [if_pos hu]
     cases hsh : c.shape with
     | true =>
-      rw [bracket_shape_unpainted hsh hb]
-      exact (expectedPx_plain hs (Or.inl (by simp [Client.at, hsh]))).symm
+      rw [bracket_shape_unpainted hsh hb,
+        expectedPx_plain (c := c.at (updCurX s c) (updCurY s c)) hs (Or.inl (show (c.at _ _).shape = true from hsh))]
     | false =>
       obtain ⟨h1, _⟩ := bracket_soft_painted hsh hb
-      exact expectedPx_soft_show hs hsh h1 hx hy
+      rw [expectedPx_soft_show hs hsh h1 hx hy]
   · rw [if_neg hu]
     cases hmod : c.modified.mem s.scr.w x y with
     | true =>
@@ -327,7 +330,7 @@ theorem bystander_inv {v : Variant} {s : Sess} {c d : Client} {scr2 scr3 : Scree
   refine ⟨by rw [hw3, hh3]; exact hpsz, ?_⟩
   intro x y hx hy
   rw [hw3] at hx ⊢; rw [hh3] at hy
-  rw [expectedPx_congr (c' := d) (c := d) (by rw [hfb3]) hw3 hh3 hfmt3 hbpp3 hlook rfl rfl rfl]
+  rw [hfmt3, expectedPx_congr (c' := d) (c := d) (by rw [hfb3]) hw3 hh3 hfmt3 hbpp3 hlook rfl rfl rfl]
   exact hpix x y hx hy
 
 /-! ### `sendUpdate` and `pump` preserve the invariant -/
@@ -446,13 +449,14 @@ theorem ClientInv.mono {v : Variant} {scr scr' : Screen} {c c' : Client} (h : Cl
     (hfb : scr'.fb = scr.fb) (hw : scr'.w = scr.w) (hh : scr'.h = scr.h) (hf : scr'.fmt = scr.fmt)
     (hb : scr'.bpp = scr.bpp) (hl : SameLook v scr.fmt scr.bpp scr'.cursor scr.cursor)
     (hs : c'.shape = c.shape) (hx : c'.curX = c.curX) (hy : c'.curY = c.curY) (hp : c'.pic = c.pic)
+    (ht : c'.tfmt = c.tfmt)
     (hm : ∀ x y, x < scr.w → y < scr.h → c.modified.mem scr.w x y = true → c'.modified.mem scr.w x y = true) :
     ClientInv v scr' c' := by
   obtain ⟨hsz, hpix⟩ := h
   refine ⟨by rw [hp, hw, hh]; exact hsz, ?_⟩
   intro x y hx' hy'
   rw [hw] at hx' ⊢; rw [hh] at hy'
-  rw [expectedPx_congr (by rw [hfb]) hw hh hf hb hl hs hx hy, hp]
+  rw [expectedPx_congr (by rw [hfb]) hw hh hf hb hl hs hx hy, hp, hf, ht]
   rcases hpix x y hx' hy' with h | h
   · exact Or.inl (hm x y hx' hy' h)
   · exact Or.inr h
@@ -463,8 +467,9 @@ theorem nodup_map_clients {l : List Client} (f : Client → Client) (hf : ∀ c,
     rw [List.map_map]; apply List.map_congr_left; intro c _; exact hf c
   rw [this]; exact h
 
-theorem newClient_inv {v : Variant} {s : Sess} {id : Nat} {k : ClientKind} (hi : SessInv v s)
-    (hfresh : s.clients.any (fun c => c.id == id) = false) : SessInv v (newClient s id k) := by
+theorem newClient_inv {v : Variant} {s : Sess} {id : Nat} {k : ClientKind} {t : Option (Format × Nat)}
+    (hi : SessInv v s)
+    (hfresh : s.clients.any (fun c => c.id == id) = false) : SessInv v (newClient s id k t) := by
   unfold newClient
   refine ⟨⟨hi.1.1, ?_⟩, ?_⟩
   · simp only [List.map_cons, List.nodup_cons]
@@ -489,7 +494,7 @@ theorem ptrEvent_inv {v : Variant} {s : Sess} {id x y b : Nat} (hi : SessInv v s
       · exact nodup_map_clients _ (by intro c; split <;> split <;> rfl) hi.1.2
       · intro c hc
         obtain ⟨d, hd, rfl⟩ := List.mem_map.mp hc
-        refine (hi.2 d hd).mono rfl rfl rfl rfl rfl (SameLook.refl _ _ _ _) ?_ ?_ ?_ ?_ ?_ <;>
+        refine (hi.2 d hd).mono rfl rfl rfl rfl rfl (SameLook.refl _ _ _ _) ?_ ?_ ?_ ?_ ?_ ?_ <;>
           (split <;> split <;> first | rfl | (intro x y _ _ h; exact h))
     · exact ⟨⟨hi.1.1, hi.1.2⟩, hi.2⟩
   unfold ptrEvent
@@ -506,7 +511,8 @@ theorem request_inv {v : Variant} {s : Sess} {id : Nat} {incr : Bool} {r : Rect}
   · exact nodup_map_clients _ (by intro c; split <;> rfl) hi.1.2
   · intro c hc
     obtain ⟨d, hd, rfl⟩ := List.mem_map.mp hc
-    refine (hi.2 d hd).mono rfl rfl rfl rfl rfl (SameLook.refl _ _ _ _) ?_ ?_ ?_ ?_ ?_
+    refine (hi.2 d hd).mono rfl rfl rfl rfl rfl (SameLook.refl _ _ _ _) ?_ ?_ ?_ ?_ ?_ ?_
+    · split <;> rfl
     · split <;> rfl
     · split <;> rfl
     · split <;> rfl
@@ -530,6 +536,7 @@ theorem ClientInv.draw {v : Variant} {scr scr' : Screen} {d d' : Client} {r : Re
     (hcur : scr'.cursor = scr.cursor) (hr1 : r.x1 < r.x2) (hr3 : r.x2 ≤ scr.w)
     (hfb : writeBox (fbIdx scr.w r.x1 r.y1) g (r.y2 - r.y1) (r.x2 - r.x1) scr.fb = some scr'.fb)
     (hs : d'.shape = d.shape) (hx : d'.curX = d.curX) (hy : d'.curY = d.curY) (hp : d'.pic = d.pic)
+    (ht : d'.tfmt = d.tfmt)
     (hm : d'.modified = Rgn.or scr.w scr.h d.modified (Rgn.ofRect scr.w scr.h (some r))) :
     ClientInv v scr' d' := by
   obtain ⟨hpsz, hpix⟩ := h
@@ -537,7 +544,7 @@ theorem ClientInv.draw {v : Variant} {scr scr' : Screen} {d d' : Client} {r : Re
   refine ⟨by rw [hp, hw, hh]; exact hpsz, ?_⟩
   intro x y hx' hy'
   rw [hw] at hx' ⊢; rw [hh] at hy'
-  rw [hm, hp, Rgn.mem_or _ _ hx' hy', Rgn.mem_ofRect _ hx' hy']
+  rw [hm, hp, hf, ht, Rgn.mem_or _ _ hx' hy', Rgn.mem_ofRect _ hx' hy']
   by_cases hin : r.has x y = true
   · left; simp [hin]
   · have hno : ∀ j, j < r.y2 - r.y1 → ∀ i, i < r.x2 - r.x1 → fbIdx scr.w r.x1 r.y1 j i ≠ y * scr.w + x := by
@@ -565,7 +572,7 @@ theorem draw_inv {v : Variant} {s s' : Sess} {r : Rect} {val : Nat → Nat → P
   · exact nodup_map_clients _ (fun _ => rfl) hi.1.2
   · intro c hc
     obtain ⟨d, hd, rfl⟩ := List.mem_map.mp hc
-    exact (hi.2 d hd).draw (scr' := { s.scr with fb := fb }) rfl rfl rfl rfl rfl hr1 hr3 hfb rfl rfl rfl rfl rfl
+    exact (hi.2 d hd).draw (scr' := { s.scr with fb := fb }) rfl rfl rfl rfl rfl hr1 hr3 hfb rfl rfl rfl rfl rfl rfl
 
 theorem Cursor.wfb_WF {c : Cursor} (h : c.wfb = true) : c.WF := by
   unfold Cursor.wfb at h
@@ -592,7 +599,9 @@ theorem not_inBox_of_not_mem {scr : Screen} {cur : Cursor} (hc : scr.cursor = so
 was not marked before and lies under neither the old nor the new cursor -/
 theorem ClientInv.setCursor {v : Variant} {scr scr' : Screen} {d d' : Client} (h : ClientInv v scr d)
     (hwf : scr.WF) (hwf' : scr'.WF) (hfb : scr'.fb = scr.fb) (hw : scr'.w = scr.w) (hh : scr'.h = scr.h)
+    (hf : scr'.fmt = scr.fmt)
     (hs : d'.shape = d.shape) (hx : d'.curX = d.curX) (hy : d'.curY = d.curY) (hp : d'.pic = d.pic)
+    (ht : d'.tfmt = d.tfmt)
     (hm : ∀ x y, x < scr.w → y < scr.h → d'.modified.mem scr.w x y = false →
       d.modified.mem scr.w x y = false ∧
       (d.shape = false →
@@ -610,7 +619,7 @@ theorem ClientInv.setCursor {v : Variant} {scr scr' : Screen} {d d' : Client} (h
     obtain ⟨h1, h2⟩ := hm x y hx' hy' hmod
     rcases hpix x y hx' hy' with h | h
     · rw [h1] at h; simp at h
-    · rw [hp, h]
+    · rw [hp, h, hf, ht]
       have hidx : scr'.fb[y * scr'.w + x]? = scr.fb[y * scr.w + x]? := by rw [hfb, hw]
       cases hsh : d.shape with
       | true =>
@@ -638,7 +647,8 @@ theorem setCursor_inv {v : Variant} {s : Sess} {c : Option Cursor} (hi : SessInv
     simp only [List.map_map] at hd'
     obtain ⟨d, hd, rfl⟩ := List.mem_map.mp hd'
     simp only [Function.comp]
-    refine (hi.2 d hd).setCursor (scr' := { s.scr with cursor := c }) hi.1.1 hwf' rfl rfl rfl ?_ ?_ ?_ ?_ ?_
+    refine (hi.2 d hd).setCursor (scr' := { s.scr with cursor := c }) hi.1.1 hwf' rfl rfl rfl rfl ?_ ?_ ?_ ?_ ?_ ?_
+    · cases hsh : d.shape <;> simp [hsh]
     · cases hsh : d.shape <;> simp [hsh]
     · cases hsh : d.shape <;> simp [hsh]
     · cases hsh : d.shape <;> simp [hsh]
@@ -659,7 +669,7 @@ theorem setCursor_inv {v : Variant} {s : Sess} {c : Option Cursor} (hi : SessInv
 theorem applyOp_inv {v : Variant} {s s' : Sess} {op : Op} (hi : SessInv v s) (h : applyOp v s op = some s') :
     SessInv v s' := by
   cases op with
-  | client id k =>
+  | client id k t =>
     simp only [applyOp] at h
     split at h
     · simp at h; subst h; exact hi
